@@ -100,7 +100,13 @@ fn handle(line: &str, oracle: bool) -> String {
             _ => bad(),
         },
         (["DFENC", id, rest @ ..], false) => l3::op_dfenc(id, rest),
-        (["DFENCF", id, rest @ ..], _) => l3::op_dfenc_fill(0xff, id, rest),
+        (["DFENCF", id, rest @ ..], false) => l3::op_dfenc_fill(0xff, id, rest),
+        (["DFENCF", id, rest @ ..], true) => {
+            // C08 / C07: what a field writes does not depend on what the buffer held
+            let a = l3::op_dfenc_fill(0xff, id, rest);
+            let b = l3::op_dfenc(id, rest);
+            if a == b { "PASS".into() } else { format!("FAIL C08 field {} written into an all-ones buffer reads back {} ; into a zeroed buffer {}", id, a, b) }
+        }
         (["DEC", h], false) => unhex(h).map(|d| l3::op_dec(&d)).unwrap_or_else(bad),
         (["DEC", h], true) => unhex(h).map(|d| l3::oracle_dec(&d)).unwrap_or_else(bad),
         // ENC with every list in a container that has a history (stale elements behind the active part)
